@@ -8,6 +8,20 @@ COMMON_ASSUME = [
 ]
 
 PROPS = {
+    "C06": {
+        "units": [{"pkg": "./c06", "race": True, "shards": 4, "shards_thorough": 8, "timeout": 900}],
+        "parallel": 4,
+        "rule": ("rapid-generated concurrent workloads, all under the Go race detector: (a) routes with 2-12 weighted/unweighted targets: L lookups sequentially on one copy of the table and the same L lookups split over "
+                 "2-32 goroutines on a twin copy must give identical per-target counts (round robin hands out every slot exactly once); (b) tables with more glob host patterns than the cache size (1-8): every lookup "
+                 "gets the sequentially correct route and the cache never holds more than its size (hook VerifLen, sampled and final); (c) HTTPProxy.ServeHTTP with $host$path and strip redirect routes, allow and deny "
+                 "routes (per-goroutine peer addresses and X-Forwarded-For) and multi-target routes, optionally while a writer keeps replacing the table: every response (Location, 403/200, upstream) is the sequential "
+                 "answer for that goroutine's own request; (d) Table.Lookup's RedirectURL belongs to the calling request. Non-trivial = workload in which requests actually overlapped (in-flight counter > 1) / "
+                 ">=2 goroutines on one route."),
+        "technique": "generated concurrent workloads under the race detector with per-request sequential oracles and a twin-table differential for round robin",
+        "level_text": "Many generated multi-goroutine workloads are executed against shared tables, pickers, the glob cache and the HTTP handler; each observation is compared with the sequential answer for the same request and the race detector reports unsynchronised access pairs. Exploration only: schedules are sampled, not enumerated.",
+        "level_note": "The Go scheduler is not controlled. A lock-free logic error that involves only atomics is caught only if an executed schedule exposes it to the semantic oracle; data races are caught whenever both accesses execute.",
+        "assumptions": COMMON_ASSUME,
+    },
     "C19": {
         "units": [
             {"pkg": "./c19", "shards": 2, "shards_thorough": 8, "timeout": 900},
